@@ -493,3 +493,200 @@ RECIPES += [
     ("C04", "neutral", [], F_, _WR, _wr("_write_ascii_nonbigmat"), "write: one dictionary keyed by (binary, layout)"),
     ("C04", "break", ["C04-R7"], F_, _WR, _wr("_write_ascii_bigmat"), "write: (False, 'nonbigmat') mapped to the bigmat writer"),
 ]
+
+
+# ---------------------------------------------------------------------------------------------------------------------- pass 4
+# constructs of the last fresh round (C04-N42: itertools.accumulate + map(slice, ..), next(generator, None), `fixed or table[key]`) and the helper's own
+# refactorings: nested writer taking f / perline / numform from the enclosing call (defined before they are bound), the closing record packed by one
+# call, header slices from a generator over neighbouring edges with a starred target, abs() as a conditional expression, writers looked up by a
+# computed name, sum() of a literal table and divmod, str.removesuffix / str.removeprefix
+_WA = (
+    '        (cols, multiplier, perline, numlen, numform) = self._write_ascii_header(\n'
+    '            f, name, matrix, digits, bigmat=False, form=form\n'
+    '        )\n'
+    '\n'
+    '        def _write_col_data(f, v, c, s, elems, perline, numform):\n'
+    '            f.write(f"{c + 1:8}{s + 1:8}{elems:8}\\n")\n'
+    '            neven = ((elems - 1) // perline) * perline\n'
+    '            for i in range(0, neven, perline):\n'
+    '                for j in range(perline):\n'
+    '                    f.write(numform % v[i + j])\n'
+    '                f.write("\\n")\n'
+    '            for i in range(neven, elems):\n'
+    '                f.write(numform % v[i])\n'
+    '            f.write("\\n")\n'
+    '\n'
+    '        if isinstance(matrix, np.ndarray):\n'
+    '            for c in range(cols):\n'
+    '                v = matrix[:, c]\n'
+    '                if np.any(v):\n'
+    '                    pv = np.nonzero(v)[0]\n'
+    '                    s = pv[0]\n'
+    '                    e = pv[-1]\n'
+    '                    elems = (e - s + 1) * multiplier\n'
+    '                    v = np.asarray(v[s : e + 1]).ravel()\n'
+    '                    v.dtype = float\n'
+    '                    _write_col_data(f, v, c, s, elems, perline, numform)\n'
+    '        else:\n'
+    '            # sparse matrix:\n'
+    '            rs, cs, vs, cols_with_data = OP4._sparse_sort(matrix)\n'
+    '            dt = float if multiplier == 1 else complex\n'
+    '            for c in cols_with_data:\n'
+    '                pv = (cs == c).nonzero()[0]  # find data for column c\n'
+    '                s = rs[pv[0]]  # first row with value\n'
+    '                e = rs[pv[-1]]  # last row with value\n'
+    '                elems = e - s + 1\n'
+    '                vec = np.zeros(elems, dt)\n'
+    '                vec[rs[pv] - s] = vs[pv]\n'
+    '                elems *= multiplier\n'
+    '                vec.dtype = float\n'
+    '                _write_col_data(f, vec, c, s, elems, perline, numform)\n'
+)
+
+
+def _wa(first_row):
+    return (
+        "        def _write_col_data(v, c, s, elems):\n"
+        "            # f, perline and numform are those of the enclosing call\n"
+        f"            f.write(f\"{{c + 1:8}}{{{first_row}:8}}{{elems:8}}\\n\")\n"
+        "            neven = ((elems - 1) // perline) * perline\n"
+        "            for i in range(0, neven, perline):\n"
+        "                for j in range(perline):\n"
+        "                    f.write(numform % v[i + j])\n"
+        "                f.write(\"\\n\")\n"
+        "            for i in range(neven, elems):\n"
+        "                f.write(numform % v[i])\n"
+        "            f.write(\"\\n\")\n"
+        "\n"
+        "        (cols, multiplier, perline, numlen, numform) = self._write_ascii_header(\n"
+        "            f, name, matrix, digits, bigmat=False, form=form\n"
+        "        )\n"
+        "        if isinstance(matrix, np.ndarray):\n"
+        "            for c in range(cols):\n"
+        "                v = matrix[:, c]\n"
+        "                if np.any(v):\n"
+        "                    pv = np.nonzero(v)[0]\n"
+        "                    s = pv[0]\n"
+        "                    e = pv[-1]\n"
+        "                    elems = (e - s + 1) * multiplier\n"
+        "                    v = np.asarray(v[s : e + 1]).ravel()\n"
+        "                    v.dtype = float\n"
+        "                    _write_col_data(v, c, s, elems)\n"
+        "        else:\n"
+        "            # sparse matrix:\n"
+        "            rs, cs, vs, cols_with_data = OP4._sparse_sort(matrix)\n"
+        "            dt = float if multiplier == 1 else complex\n"
+        "            for c in cols_with_data:\n"
+        "                pv = (cs == c).nonzero()[0]  # find data for column c\n"
+        "                s = rs[pv[0]]  # first row with value\n"
+        "                e = rs[pv[-1]]  # last row with value\n"
+        "                elems = e - s + 1\n"
+        "                vec = np.zeros(elems, dt)\n"
+        "                vec[rs[pv] - s] = vs[pv]\n"
+        "                elems *= multiplier\n"
+        "                vec.dtype = float\n"
+        "                _write_col_data(vec, c, s, elems)\n")
+
+
+_SENT = ('        reclen = 3 * 4 + 8\n        f.write(colHeader.pack(reclen, cols + 1, 1, 2))\n        f.write(struct.pack(endian + "d", 2**0.5))\n'
+         '        f.write(colTrailer.pack(reclen))\n\n    @staticmethod\n    def _write_binary_sparse(')
+
+
+def _sent(fmt, vals):
+    return ('        reclen = 3 * 4 + 8\n        # the closing dummy column as one record (a standard layout: no padding between the items)\n'
+            f'        f.write(struct.pack(endian + "{fmt}", {vals}))\n\n    @staticmethod\n    def _write_binary_sparse(')
+
+
+_HS = ('                line = line[:-4]\n                c_slice = slice(0, 16)\n                r_slice = slice(16, 32)\n                f_slice = slice(32, 40)\n'
+       '                t_slice = slice(40, 48)\n                n_slice = slice(48, 56)\n            else:\n                c_slice = slice(0, 8)\n'
+       '                r_slice = slice(8, 16)\n                f_slice = slice(16, 24)\n                t_slice = slice(24, 32)\n                n_slice = slice(32, 40)\n\n'
+       '            cols = int(line[c_slice])\n            rows = int(line[r_slice])\n            form = int(line[f_slice])\n            mtype = int(line[t_slice])\n')
+
+
+def _hs_edges(wide, names):
+    return (f'                line = line[:-4]\n                edges = {wide}\n            else:\n                edges = (0, 8, 16, 24, 32, 40)\n'
+            '            *int_slices, n_slice = (slice(a, b) for a, b in zip(edges, edges[1:]))\n'
+            f'            {names} = (int(line[field]) for field in int_slices)\n')
+
+
+def _hs_acc(widths):
+    return ('                line = line[:-4]\n                width = 16\n            else:\n                width = 8\n'
+            f'            stops = list(it.accumulate({widths}))\n'
+            '            c_slice, r_slice, f_slice, t_slice, n_slice = map(\n                slice, [0] + stops[:-1], stops\n            )\n\n'
+            '            cols = int(line[c_slice])\n            rows = int(line[r_slice])\n            form = int(line[f_slice])\n            mtype = int(line[t_slice])\n')
+
+
+_ABS = "        X = rdfunc(wper, r, c, abs(rows), cols, line, numlen, perline, linelen, funcs)\n"
+
+
+def _wr_getattr(nonbigmat):
+    return ('        enc = "binary" if binary else "ascii"\n'
+            f'        suffix = {{"dense": "", "bigmat": "_bigmat", "nonbigmat": "{nonbigmat}"}}\n'
+            '        if sparse in ("dense", "bigmat", "nonbigmat"):\n            wrtfunc = getattr(self, "_write_" + enc + suffix[sparse])\n'
+            '        elif sparse != "auto":\n            raise ValueError("invalid sparse option")\n'
+            '        if binary and endian == "":\n            endian = "="  # for backwards compatibility\n'
+            '        with open(filename, "wb" if binary else "w") as f:\n            for name, matrix, form in zip(names, matrices, forms):\n'
+            '                if sparse == "auto":\n                    layout = "bigmat" if isinstance(matrix, tuple) else "dense"\n'
+            '                    wrtfunc = getattr(self, "_write_" + enc + suffix[layout])\n'
+            '                wrtfunc(f, name, matrix, endian if binary else digits, form)\n')
+
+
+def _wr_next(test):
+    return ('        if binary:\n            writers = {\n                "dense": self._write_binary,\n                "bigmat": self._write_binary_bigmat,\n'
+            '                "nonbigmat": self._write_binary_nonbigmat,\n            }\n            mode = "wb"\n'
+            '            setting = "=" if endian == "" else endian\n        else:\n            writers = {\n                "dense": self._write_ascii,\n'
+            '                "bigmat": self._write_ascii_bigmat,\n                "nonbigmat": self._write_ascii_nonbigmat,\n            }\n'
+            '            mode = "w"\n            setting = digits\n\n'
+            f'        fixed = next((func for key, func in writers.items() if {test}), None)\n'
+            '        if fixed is None and sparse != "auto":\n            raise ValueError("invalid sparse option")\n\n'
+            '        with open(filename, mode) as f:\n            for name, matrix, form in zip(names, matrices, forms):\n'
+            '                auto = "bigmat" if isinstance(matrix, tuple) else "dense"\n                wrtfunc = fixed or writers[auto]\n'
+            '                wrtfunc(f, name, matrix, setting, form)\n')
+
+
+_NL = "        numlen = digits + 5 + self._expdigits  # -1.digitsE-009\n        perline = 80 // numlen\n"
+_SFX = '            if line.endswith("|I16"):\n                line = line[:-4]\n'
+_PFX = '                if numformat.startswith("1P,"):\n                    numformat = numformat[3:]\n'
+
+RECIPES += [
+    ("C04", "neutral", [], F_, _WA, _wa("s + 1"), "dense ascii writer: the nested column writer is defined first and takes f, perline, numform from the enclosing call"),
+    ("C04", "break", ["C04-R3"], F_, _WA, _wa("s"), "dense ascii writer with a closure: 0-based first row announced"),
+    ("C04", "neutral", [], F_, _SENT, _sent("4idi", "reclen, cols + 1, 1, 2, 2**0.5, reclen"), "dense binary writer: the closing record packed by one call"),
+    ("C04", "break", ["C04-R3"], F_, _SENT, _sent("4idi", "reclen, cols + 1, 2, 1, 2**0.5, reclen"), "dense binary writer, one pack: first row and word count exchanged"),
+    ("C04", "break", ["C04-R3"], F_, _SENT, _sent("4ifi", "reclen, cols + 1, 1, 2, 2**0.5, reclen"), "dense binary writer, one pack: the closing value as a 4-byte real"),
+    ("C04", "neutral", [], F_, _HS, _hs_edges("(0, 16, 32, 40, 48, 56)", "cols, rows, form, mtype"),
+     "ascii loader: header slices from a generator over neighbouring edges (starred target), integers from a generator over the slices"),
+    ("C04", "break", ["C04-R2"], F_, _HS, _hs_edges("(0, 16, 32, 48, 56, 64)", "cols, rows, form, mtype"), "ascii loader: edges of the wide header put the form field 16 wide"),
+    ("C04", "break", ["C04-R2"], F_, _HS, _hs_edges("(0, 16, 32, 40, 48, 56)", "rows, cols, form, mtype"), "ascii loader: generator unpacked into (rows, cols, ..)"),
+    ("C04", "neutral", [], F_, _HS, _hs_acc("[width, width, 8, 8, 8]"), "ascii loader: header slices through itertools.accumulate and map(slice, starts, stops)"),
+    ("C04", "break", ["C04-R2"], F_, _HS, _hs_acc("[width, 8, width, 8, 8]"), "ascii loader: accumulated widths in the wrong order (wide header only)"),
+    ("C04", "neutral", [], F_, _ABS, "        nrows = -rows if rows < 0 else rows\n        X = rdfunc(wper, r, c, nrows, cols, line, numlen, perline, linelen, funcs)\n",
+     "ascii loader: abs(rows) as a conditional expression"),
+    ("C04", "break", ["C04-R2"], F_, _ABS, "        nrows = rows if rows < 0 else -rows\n        X = rdfunc(wper, r, c, nrows, cols, line, numlen, perline, linelen, funcs)\n",
+     "ascii loader: conditional expression hands on -|rows|"),
+    ("C04", "neutral", [], F_, _WR, _wr_getattr("_nonbigmat"), "write: writers looked up by a computed name (getattr, suffix table)"),
+    ("C04", "break", ["C04-R7"], F_, _WR, _wr_getattr("_bigmat"), "write: suffix table sends 'nonbigmat' to the bigmat writers"),
+    ("C04", "neutral", [], F_, _WR, _wr_next("sparse == key"), "write: fixed writer through next(generator, None), `fixed or writers[auto]`"),
+    ("C04", "break", ["C04-R7"], F_, _WR, _wr_next("sparse != key"), "write: next(generator) with the filter inverted picks another layout's writer"),
+    ("C04", "neutral", [], F_, _NL, "        numlen = sum((digits, 5, self._expdigits))  # -1.digitsE-009\n        perline, _unused = divmod(80, numlen)\n",
+     "_write_ascii_header: numlen through sum() of a literal table, perline through divmod"),
+    ("C04", "neutral", [], F_, _SFX, '            if line.endswith("|I16"):\n                line = line.removesuffix("|I16")\n', "ascii loader: str.removesuffix for the slice"),
+    ("C04", "neutral", [], F_, _PFX, '                numformat = numformat.removeprefix("1P,")\n', "ascii loader: str.removeprefix for the guarded slice"),
+    ("C04", "break", ["C04-R1", "C04-R3"], F_, _PFX, '                numformat = numformat.removeprefix("1P")\n', "ascii loader: removeprefix leaves the comma in front of perline"),
+]
+
+
+def _wr_dictcomp(big, nonbig):
+    return ('        enc = "binary" if binary else "ascii"\n        writers = {\n            layout: getattr(self, f"_write_{enc}{tail}")\n'
+            f'            for layout, tail in (("dense", ""), ("bigmat", "{big}"), ("nonbigmat", "{nonbig}"))\n        }}\n'
+            '        if sparse != "auto" and sparse not in tuple(writers):\n            raise ValueError("invalid sparse option")\n'
+            '        if binary and endian == "":\n            endian = "="  # for backwards compatibility\n'
+            '        with open(filename, "wb" if binary else "w") as f:\n            for name, matrix, form in zip(names, matrices, forms):\n'
+            '                if sparse == "auto":\n                    layout = "bigmat" if isinstance(matrix, tuple) else "dense"\n                else:\n'
+            '                    layout = sparse\n                writers[layout](f, name, matrix, endian if binary else digits, form)\n')
+
+
+RECIPES += [
+    ("C04", "neutral", [], F_, _WR, _wr_dictcomp("_bigmat", "_nonbigmat"), "write: writers from a dictionary comprehension over (layout, name tail) pairs"),
+    ("C04", "break", ["C04-R7"], F_, _WR, _wr_dictcomp("_nonbigmat", "_bigmat"), "write: dictionary comprehension with the sparse name tails exchanged"),
+]
